@@ -143,6 +143,16 @@ func addNode16(adder interface {
 			recOf(ctx).add(p, vs...)
 			return in, nil
 		}), name)
+	case "I":
+		// a lambda whose option type is an interface: no option value has that type, so nothing is routed to it
+		return adder.AddLambdaNode(n.Key, compose.InvokableLambdaWithOption(func(ctx context.Context, in docs, opts ...any) (docs, error) {
+			vs := make([]string, 0, len(opts))
+			for _, o := range opts {
+				vs = append(vs, fmt.Sprintf("%v", o))
+			}
+			recOf(ctx).add(p, vs...)
+			return in, nil
+		}), name)
 	case "N":
 		return adder.AddLambdaNode(n.Key, compose.InvokableLambda(func(ctx context.Context, in docs) (docs, error) {
 			recOf(ctx).add(p)
@@ -462,7 +472,7 @@ func checkC16(c CaseC16) (*vkit.Failure, vkit.Meta) {
 				}
 				got := o.rec.got[n.path]
 				for _, v := range got {
-					if !strings.HasPrefix(v, callID+":") {
+					if n.kind != "I" && !strings.HasPrefix(v, callID+":") {
 						return &vkit.Failure{Kind: "option-leaked-between-calls", Sig: "option-leaked-between-calls", Msg: fmt.Sprintf("node %s in %s received option value %q of another call", n.path, callID, v)}
 					}
 				}
@@ -520,7 +530,7 @@ func genNodes16(t *rapid.T, depth int, prefix string) []Node16 {
 	n := rapid.IntRange(1, 4).Draw(t, "n")
 	var out []Node16
 	for i := 0; i < n; i++ {
-		kinds := []string{"A", "A", "B", "B", "N", "T", "T"}
+		kinds := []string{"A", "A", "B", "B", "N", "T", "T", "I"}
 		if depth > 0 {
 			kinds = append(kinds, "G", "G", "W")
 		}
